@@ -7,26 +7,26 @@ from pathlib import Path
 sys.path.insert(0, '/verif')
 PIDS = [f"C{i:02d}" for i in range(1, 21)]
 
-OLD_BASE = '9c75944'          # the tree the behaviour-preserving patch sets were written against (before the fixes of round 4)
-OLD_BASE_DIR = Path('/tmp/vfpe-base-' + OLD_BASE)
+OLD_BASES = ['f4e073b', '9c75944']   # trees the behaviour-preserving patch sets were written against (BPE; BP..BPD), oldest last
 
 
-def old_base():
+def old_base(commit):
     """(directory, findings of every check on it): patches that no longer apply to /repo's HEAD are measured against the tree they were
     written for, and only findings that the unpatched old tree does not have count (that tree has the defects fixed since)"""
-    if not (OLD_BASE_DIR / 'src').exists():
-        OLD_BASE_DIR.mkdir(parents=True, exist_ok=True)
-        subprocess.run(f'git -C /repo archive {OLD_BASE} src/experimaestro | tar -x -C {OLD_BASE_DIR}', shell=True, check=True)
-    cache = OLD_BASE_DIR / 'baseline.json'
+    base_dir = Path('/tmp/vfpe-base-' + commit)
+    if not (base_dir / 'src').exists():
+        base_dir.mkdir(parents=True, exist_ok=True)
+        subprocess.run(f'git -C /repo archive {commit} src/experimaestro | tar -x -C {base_dir}', shell=True, check=True)
+    cache = base_dir / 'baseline.json'
     import hashlib
     digest = hashlib.sha1(b''.join(Path(f).read_bytes() for f in sorted(map(str, Path('/verif/sa').rglob('*.py'))) + sorted(map(str, Path('/verif/spec').glob('*.json'))))).hexdigest()
     if cache.exists():
         d = json.loads(cache.read_text())
         if d.get('digest') == digest:
-            return OLD_BASE_DIR, {k: set(v) for k, v in d['keys'].items()}
-    _, keys = evaluate(OLD_BASE_DIR)
+            return base_dir, {k: set(v) for k, v in d['keys'].items()}
+    _, keys = evaluate(base_dir)
     cache.write_text(json.dumps({'digest': digest, 'keys': {k: sorted(v) for k, v in keys.items()}}))
-    return OLD_BASE_DIR, keys
+    return base_dir, keys
 
 
 def evaluate(root, baseline=None):
@@ -59,14 +59,15 @@ def one(patch):
         if r.returncode:
             if os.environ.get('PE_NO_OLD_BASE'):
                 return patch, None
-            base, baseline = old_base()
-            shutil.rmtree(tmp / 'src')
-            shutil.copytree(base / 'src', tmp / 'src')
-            r = subprocess.run(['patch', '-p1', '-s', '--no-backup-if-mismatch', '-i', patch], cwd=tmp, capture_output=True, text=True)
-            if r.returncode:
-                return patch, None
-            row, _ = evaluate(tmp, baseline)
-            return patch, row
+            for commit in OLD_BASES:
+                base, baseline = old_base(commit)
+                shutil.rmtree(tmp / 'src')
+                shutil.copytree(base / 'src', tmp / 'src')
+                r = subprocess.run(['patch', '-p1', '-s', '--no-backup-if-mismatch', '-i', patch], cwd=tmp, capture_output=True, text=True)
+                if r.returncode == 0:
+                    row, _ = evaluate(tmp, baseline)
+                    return patch, row
+            return patch, None
         row, _ = evaluate(tmp)
         return patch, row
     finally:
